@@ -68,10 +68,11 @@ class RefMap:
 
 
 def parse_line(line):
-    """ok <out...> | size | shape ;; events"""
+    """ok <out...> | size | comparator calls | shape ;; events"""
     head, rest = line.split('|', 1)
     out = head.split()[1:]
-    size_s, rest2 = rest.split('|', 1)
+    size_s, rest1 = rest.split('|', 1)
+    _cmps, rest2 = rest1.split('|', 1)
     shape, _, ev = rest2.partition(';;')
     return out, int(size_s), shape.strip(), ev.strip()
 
